@@ -4,6 +4,16 @@ TB = ("Trusted: Coq 8.16.1 kernel + vm_compute (no native_compute, no axioms: ev
       "the hand-written Gallina model, tied to /repo only by the correspondence check of each run (sampled behaviours); the Go harness (generators, oracles) ")
 SRV = ("; the server model (Model/Server.v: evaluatePushPullCase, processSubscribeOrCreate, push/pull/commit over an abstract document store) and the client protocol model (Model/Wire.v) are replayed on every run against the real OrdaService running in process over an in-memory MongoDB/MQTT stand-in and real clients: every request, response, store state and publish must coincide")
 TEXTS = {
+ "C03": {
+  "text": "Theorems: a call failing validation, or rejected by the datatype, returns an error and leaves the entire datatype (readable state, next id, pending operations, checkpoint, rollback point) exactly as it was — generic in the datatype; the counter is a wrapped 32-bit integer; map Put/Remove act on the key and return the old value like a plain map (Remove of an absent key is an error that changes nothing); list Insert/Delete/Update never dereference nil, transform the sequence of readable values exactly like the slice operation, return what it returns, and keep Size equal to the number of readable values. On every run one real replica is driven with valid and invalid calls and reads and compared call by call with the plain Go structure AND with the model.",
+  "note": TB + "; Document (JSON tree, child documents, null values, wrong container kind) is not modelled yet — its C03 part is not claimed.",
+  "technique": "Coq proof (refinement of the live projection to the plain structure) + in-Coq differential replay + plain-structure oracle in Go",
+ },
+ "C04": {
+  "text": "Theorems per replica and per operation, for all states and arguments: a local insert at index i is readable at index i; every remote operation keeps all existing elements in their relative order; a deleted element is never brought back by any remote operation; local operations change the readable sequence exactly like slice operations (nothing else appears or disappears). On every run real 2..4-replica list histories are replayed on the model, and an oracle follows every element through every replica-moment (no duplicate, no resurrection, same pairwise order everywhere).",
+  "note": TB + "; agreement of the order across replicas follows from list convergence (C01), whose list instance is not yet proved; Document arrays are not modelled yet.",
+  "technique": "Coq proof (subsequence / tombstone-monotonicity lemmas over the RGA kernel) + in-Coq differential replay + element-tracking oracle",
+ },
  "C05": {
   "text": "Machine-checked ingredients of the protocol's convergence: a response never moves a client's checkpoint backwards nor touches its pending operations; what the server hands out is exactly the log entries after the presented checkpoint, once each, in log order; the stored log is a gapless total order in every reachable store; replicas that executed the same operations in any executable orders hold the same state (with the counter/map instances of C01). The full statement over the client-server system (Model/Net.v) is kept as a definition (C05_statement_list), its composition is not yet proved. Every run replays real multi-client histories (create / subscribe / subscribe-or-create at arbitrary points, local calls, syncs) against Net.v event by event and compares all clients and the server's rebuild at quiescence.",
   "note": TB + SRV + "; partial: the system-level theorem is not proved, only its ingredients; manual sync mode only.",
